@@ -1,7 +1,7 @@
 ---------------------------- MODULE PlutusOrdDom ----------------------------
 (* The universe U of PlutusData terms for C07, as a SEQUENCE (the index is   *)
 (* the term's identity in vectors and in the logged comparison matrix).      *)
-(* Tier 1: ~45 terms; Tier 2: ~150 terms.                                    *)
+(* Tier 1: 57 terms to depth 2; Tier 2: 145 terms to depth 4.                *)
 EXTENDS PlutusOrd
 CONSTANT Tier
 
@@ -63,11 +63,17 @@ Four(f(_, _)) == <<f(TRUE, TRUE), f(TRUE, FALSE), f(FALSE, TRUE), f(FALSE, FALSE
 Level2 == <<N2a(TRUE, TRUE), N2a(FALSE, FALSE), N2a(TRUE, FALSE), N2c(TRUE, TRUE), N2c(FALSE, FALSE), N2b(TRUE, FALSE), N2b(FALSE, TRUE)>>
 Level2More == Four(N2a) \o Four(N2b) \o Four(N2c) \o Four(N2d)
 
+\* thorough: depth 3 and 4, in pairs that differ only in definite/indefinite choices at every level
+Level3 == <<PArr(TRUE, <<N2a(TRUE, FALSE)>>), PArr(FALSE, <<N2a(FALSE, TRUE)>>),
+            PMap(TRUE, <<<<N2c(TRUE, TRUE), N2b(FALSE, FALSE)>>>>), PMap(FALSE, <<<<N2c(FALSE, FALSE), N2b(TRUE, TRUE)>>>>),
+            PConstr(121, TRUE, <<PArr(FALSE, <<N2a(TRUE, TRUE)>>), long>>), PConstr(121, FALSE, <<PArr(TRUE, <<N2a(FALSE, FALSE)>>), long>>),
+            PConstrAny(<<>>, FALSE, <<PArr(TRUE, <<N2a(FALSE, TRUE)>>), long>>)>>
+
 \* thorough: every atom also wrapped once, so that container comparison meets every atom pair
 Wrapped == [i \in 1..Len(Atoms) |-> PArr(i % 2 = 0, <<Atoms[i]>>)]
 
 Raw == IF Tier = 1 THEN Atoms \o Level1 \o Level2
-       ELSE Atoms \o Level1 \o Level1More \o Level2 \o Level2More \o Wrapped
+       ELSE Atoms \o Level1 \o Level1More \o Level2 \o Level2More \o Level3 \o Wrapped
 
 \* drop repeated terms, keep first occurrences (the index must identify a term)
 RECURSIVE Dedup(_, _)
